@@ -2,11 +2,14 @@
 # robustness.sh: evaluate the carried-state obligation (Props/C18State.lean) on seeded changes.
 #   must break (with the field named):  the patches listed in MUST_BREAK
 #   must stay quiet:                    /verif/seeded/benign/*/patch.diff and the commits in QUIET_COMMITS
+#   variants/quiet-*.diff must stay quiet, variants/break-*.diff must break: rewrites of the per-run reset at the
+#   start of Process (helper, closure, iterator, nil guards, aliases | filter, option, forgotten field, break, lazy
+#   init, ...); regenerate them with variants/mk.py <scratch worktree> when they no longer apply
 # Works on a scratch clone under /tmp (removed at the end); never touches /repo or lean/Goyang/Gen.
 # Each patch is applied at the `head` recorded in its result.json (else at /repo's HEAD).
 set -u
 export GOFLAGS=-mod=mod GOPROXY=off GOSUMDB=off GOTOOLCHAIN=local
-MUST_BREAK="C06-b2 C18-b2 C18-c1 C05-c2 C09-b2 C11-b2 C14-c2 C18-2 C18-b1 C18-c2 C18-f2 C19-h22 C18-i22"
+MUST_BREAK="C06-b2 C18-b2 C18-c1 C05-c2 C09-b2 C11-b2 C14-c2 C18-2 C18-b1 C18-c2 C18-f2 C19-h22 C18-i22 C13-j22"
 # repairs that rewrote a generation-guarded memo test / widened the unlink loop and are harmless for C18
 QUIET_COMMITS="0c84daa"
 # commits that MUST break: 673b372 is the tree before the D66 repair (unlink loop without ms.unrevisioned)
@@ -54,6 +57,17 @@ for d in /verif/seeded/benign/*/; do
   if same "$r" && [[ "$r" != APPLY-FAILED* ]]; then quiet=$((quiet+1)); else alarms=$((alarms+1)); echo "benign $(basename $d): ALARM  $r"; fail=1; fi
 done
 echo "benign: $quiet quiet, $alarms alarm"
+V=$(cd "$(dirname "$0")" && pwd)/variants
+vq=0; vb=0
+for p in $V/quiet-*.diff; do
+  r=$(evalpatch $p)
+  if same "$r" && [[ "$r" != APPLY-FAILED* ]]; then vq=$((vq+1)); else echo "variant $(basename $p .diff): ALARM  $r"; fail=1; fi
+done
+for p in $V/break-*.diff; do
+  r=$(evalpatch $p)
+  if same "$r" || [[ "$r" == APPLY-FAILED* ]] || [[ "$r" == EXTRACT-FAILED* ]]; then echo "variant $(basename $p .diff): NOT CAUGHT  $r"; fail=1; else vb=$((vb+1)); fi
+done
+echo "variants: $vq quiet of $(ls $V/quiet-*.diff | wc -l), $vb break of $(ls $V/break-*.diff | wc -l)"
 for c in $BREAK_COMMITS; do
   (cd $T/wt && git checkout -q -- . && git clean -fdq && git checkout -q --detach $c) || { echo "commit $c: not found"; continue; }
   r=$(evalrepo)
